@@ -46,6 +46,18 @@ pub fn gen(ctx: &mut Ctx) {
         run_ccase(ctx, "C03", &w, &[cstep(COp::Auth(a)), cstep(COp::Auth(b))]);
         ctx.stat("c03.corpus.short_private_scalar");
     }
+    // imported credentials: stored COSE keys whose members come in another order (private scalar first, reversed)
+    for k in 0..(if ctx.thorough { 60u8 } else { 12 }) {
+        let kind = [Kind::RefFull, Kind::Map, Kind::Slot][k as usize % 3];
+        let id = vec![0xC3, 1, k / 6, k % 6];
+        let uh = ctx.rng.bytes_in(1, 8);
+        let pk = make_passkey(ctx, id.clone(), "example.com", Some(uh), if k % 2 == 0 { Some(k as u32) } else { None }, None);
+        let w = World { kind, counter_on: true, id_len: 16, hm: Hm::None, preload: vec![pk] };
+        let mut a = simple_auth(ctx, "https://www.example.com", Some("example.com")); a.allow = Some(vec![id.clone()]);
+        let mut b = simple_auth(ctx, "https://example.com:8443/", Some("example.com")); b.allow = Some(vec![ctx.rng.bytes(4), id.clone()]);
+        run_ccase(ctx, "C03", &w, &[cstep(COp::Auth(a)), cstep(COp::Auth(b))]);
+        ctx.stat("c03.corpus.imported_key_member_order");
+    }
     let n = if ctx.thorough { 1200 } else { 120 };
     for i in 0..n {
         // the in-memory map ignores the RP (known finding of C05): it gets one site per case
